@@ -292,8 +292,24 @@ funclit 0 in (s *SweepingProvider) Close() error
 # the run loop leaves only on the done signal and reports to the wait group
 
 # ---- offline / online (C17) -------------------------------------------------------
+# C14: the measurement waits for all its sampling goroutines; each of them
+# re-checks, before EVERY lookup attempt, that the provider is not closed (Close
+# cancels s.ctx, after which every attempt fails: without the check the retry
+# loop would spin forever and Close, which waits for the measurement, would hang)
 func (s *SweepingProvider) approxPrefixLen()
+  props C14
+  ghostvar $n int = 0
   modifies *
+  ensures [waits-for-the-samplers] tagged("wgwait:wg")
+  ghost at go(func): $n = $n + 1
+
+funclit 0 in (s *SweepingProvider) approxPrefixLen()
+  props C14
+  ghostvar $open bool = false
+  ensures [accounted] tagged("wgdone:wg")
+  ghost at call(closed): $open = !$ret0
+  ghost at before call(GetClosestPeers): assert($open && $arg0 == s.ctx)
+  ghost at call(GetClosestPeers): $open = false
 func (s *SweepingProvider) RefreshSchedule() error
   modifies *
 func (s *SweepingProvider) catchupPendingWork()
